@@ -99,6 +99,18 @@ def power_supply(x: "MultiVector", exponents: Tuple[int, ...], operation: Callab
         yield powers[step]
 
 
+def _keys_id(mv) -> str:
+    """
+    Identifier for the (ordered) keys of :code:`mv`, used to name generated functions.
+    Generated functions are stored and looked up by name, so multivectors that store the
+    same blades in a different order must not share a name.
+    """
+    keys = tuple(mv.keys())
+    if keys == tuple(k for k in mv.algebra.canon2bin.values() if k in keys):
+        return f"{mv.type_number}"
+    return f"{mv.type_number}_" + "_".join(str(k) for k in keys)
+
+
 class CodegenOutput(NamedTuple):
     """
     Output of a codegen function.
@@ -307,7 +319,7 @@ def codegen_inv(y, x=None, symbolic=False):
     expr_dict = dict(yinv.items())
     dependencies = list(zip(d.values(), denom_inv.values()))
     return LambdifyInput(
-        funcname=f'codegen_inv_{y.type_number}',
+        funcname=f'codegen_inv_{_keys_id(y)}',
         expr_dict=expr_dict,
         args=args,
         dependencies=dependencies,
@@ -397,7 +409,7 @@ def codegen_div(x, y):
     expr_dict = dict(res.items())
     dependencies = list(zip(d.values(), denom_inv.values()))
     return LambdifyInput(
-        funcname=f'div_{x.type_number}_x_{y.type_number}',
+        funcname=f'div_{_keys_id(x)}_x_{_keys_id(y)}',
         expr_dict=expr_dict,
         args=args,
         dependencies=dependencies,
@@ -526,7 +538,7 @@ def codegen_sqrt(x):
     expr_dict = dict(res.items())
     dependencies = [*zip(c.values(), [cp]), *zip(c2_inv.values(), [f'0.5 / {cp}'])]
     return LambdifyInput(
-        funcname=f'sqrt_{x.type_number}',
+        funcname=f'sqrt_{_keys_id(x)}',
         expr_dict=expr_dict,
         args=args,
         dependencies=dependencies,
@@ -592,7 +604,7 @@ def do_codegen(codegen, *mvs) -> CodegenOutput:
         dependencies = res.dependencies
         res = res.expr_dict
     else:
-        funcname = f'{codegen.__name__}_' + '_x_'.join(f"{mv.type_number}" for mv in mvs)
+        funcname = f'{codegen.__name__}_' + '_x_'.join(_keys_id(mv) for mv in mvs)
         args = {arg_name: arg.values() for arg_name, arg in zip(string.ascii_uppercase, mvs)}
         dependencies = None
 
@@ -615,7 +627,7 @@ def do_compile(codegen, *tapes):
     namespace = algebra.numspace
 
     res = codegen(*tapes)
-    funcname = f'{codegen.__name__}_' + '_x_'.join(f"{tape.type_number}" for tape in tapes)
+    funcname = f'{codegen.__name__}_' + '_x_'.join(_keys_id(tape) for tape in tapes)
     funcstr = f"def {funcname}({', '.join(t.expr for t in tapes)}):"
     if not isinstance(res, str):
         funcstr += f"    return {res.expr}"
